@@ -39,6 +39,7 @@ typedef int (*create_fn)(pthread_t*, const pthread_attr_t*, void* (*)(void*), vo
 typedef int (*join_fn)(pthread_t, void**);
 typedef long (*syscall_fn)(long, ...);
 typedef int (*clock_fn)(clockid_t, struct timespec*);
+typedef int (*once_fn)(pthread_once_t*, void (*)(void));
 
 struct Real {
     mutex_fn lock, unlock, trylock;
@@ -50,6 +51,7 @@ struct Real {
     join_fn join;
     syscall_fn sys;
     clock_fn clock;
+    once_fn once;
     volatile int ready;
 } R;
 
@@ -67,6 +69,7 @@ void init_real() {
     R.join = (join_fn)dlsym(RTLD_NEXT, "pthread_join");
     R.sys = (syscall_fn)dlsym(RTLD_NEXT, "syscall");
     R.clock = (clock_fn)dlsym(RTLD_NEXT, "clock_gettime");
+    R.once = (once_fn)dlsym(RTLD_NEXT, "pthread_once");
     R.ready = 1;
 }
 
@@ -448,6 +451,21 @@ long syscall(long nr, ...) {
     fatal("harness/unsupported-futex-op", "futex op " + std::to_string(op));
 }
 
+// std::promise::set_value/set_exception and packaged_task::operator() publish their result inside
+// std::call_once -> pthread_once. When no thread is waiting yet there is no futex wake, so this is
+// the only place where "result published" can be ordered against other threads' polls
+// (future::wait_for(0s) in check_for_exception): a scheduling point before the publication.
+int pthread_once(pthread_once_t* once, void (*init)(void)) {
+    init_real();
+    if (managed()) {
+        Th* t = cur;
+        t->st = S_AT_POINT; t->obj = ordinal(once);
+        reschedule(t);
+        progress();
+    }
+    return R.once(once, init);
+}
+
 int clock_gettime(clockid_t clk, struct timespec* ts) {
     if (!managed()) { init_real(); return R.clock(clk, ts); }
     ts->tv_sec = E.vclock_ns / 1000000000LL;
@@ -645,6 +663,13 @@ void worker_loop(const WorkerCtx& w) {
     std::vector<uint8_t> prefix(MAXPTS);
     std::set<std::string> local_outcomes;
     uint64_t local_n = 0;
+    {   // warm-up execution (default schedule, result discarded): one-time initialisations of the process
+        // (function-local statics, locale/once initialisers in libstdc++) happen here, not in a counted run
+        g_slot->prefix_len = 0; g_slot->running = 1;
+        RunResult warm;
+        run_once(*w.body, prefix.data(), 0, *w.opt, warm, false);
+        g_slot->running = 0;
+    }
     for (;;) {
         sh_lock();
         int len = SH->stop ? -1 : pop_prefix(prefix.data());
